@@ -102,7 +102,7 @@ func TestSyncRecord(t *testing.T) {
 		defer tw.Flush()
 	}
 	var (
-		traces  []vh.J
+		traces  = []vh.J{}
 		line    = 0
 		tr      = 0
 		nEvents = 0
